@@ -450,6 +450,23 @@ func c08Run(t *testing.T, st *vstat.Stats, p c08Plan) (v *viol) {
 			}
 			crossStore = true
 		}
+		sameIDTwice := false
+		if p.Faults%3 == 1 {
+			// the board stores an entry a second time under the same identifier (a producer's retry): the last signing
+			// proposal of the first round if there is one, else the round's last message. Identifiers are the board's
+			// business; what a node makes of the log does not depend on them
+			all := w.Board.All()
+			var src *storage.Message
+			for i := range all {
+				if all[i].DkgRoundID == roundA && (src == nil || all[i].Event == "event_signing_start" || src.Event != "event_signing_start") {
+					src = &all[i]
+				}
+			}
+			if src != nil {
+				w.Board.InjectKeepID(storage.Message{ID: src.ID, DkgRoundID: src.DkgRoundID, Event: src.Event, Data: src.Data, Signature: src.Signature, SenderAddr: src.SenderAddr, RecipientAddr: src.RecipientAddr})
+				sameIDTwice = true
+			}
+		}
 		w.PollAll()
 		if all := w.Board.All(); len(all) > 0 && p.Faults%3 != 0 {
 			// the log ends with a refused message (a duplicate of an earlier one)
@@ -686,6 +703,9 @@ func c08Run(t *testing.T, st *vstat.Stats, p c08Plan) (v *viol) {
 		}
 		if crossStore {
 			st.Class("another-round's-signature-broadcast-names-the-first-round")
+		}
+		if sameIDTwice {
+			st.Class("an-entry-stored-twice-under-one-identifier")
 		}
 		if foreignRound != "" {
 			st.Class("foreign-round-with-a-colliding-user-name")
